@@ -100,7 +100,7 @@ func init() {
 
 func init() {
 	reg(PropCfg{ID: "C17", Pkg: "c17", Level: "exploration",
-		Rule: "generated programs spawning 1-8 cores; every thread prints unique whole lines built from its spawn arguments (which the spawner overwrites right after the spawn), increments a shared global, pushes to a shared list, reads a read-only global; variants where one thread fails fatally and where main finishes first; each program runs several times in a -race build of the worker with GOMAXPROCS in {1,2,4,16} and optional yields in host callbacks; oracle: output multiset equals the expected multiset of whole lines, nothing arrives after the wait returned, a failing thread's interrupt is the one reported and no core/goroutine survives it, the race detector stays silent (GORACE=halt_on_error: a report kills the worker and is read from its stderr); interleavings are SAMPLED, not enumerated; non-trivial = >= 2 threads; distinct by program text + scheduler setting",
+		Rule:        "generated programs spawning 1-8 cores; every thread prints unique whole lines built from its spawn arguments (which the spawner overwrites right after the spawn), increments a shared global, pushes to a shared list, reads a read-only global; variants where one thread fails fatally and where main finishes first; each program runs several times in a -race build of the worker with GOMAXPROCS in {1,2,4,16} and optional yields in host callbacks; oracle: output multiset equals the expected multiset of whole lines, nothing arrives after the wait returned, a failing thread's interrupt is the one reported and no core/goroutine survives it, the race detector stays silent (GORACE=halt_on_error: a report kills the worker and is read from its stderr); interleavings are SAMPLED, not enumerated; non-trivial = >= 2 threads; distinct by program text + scheduler setting",
 		Assumptions: []string{"the Go race detector reports only races that occur in the sampled executions"},
 		Jobs: []Job{
 			{Name: "threads", Run: "^TestThreads$", Checks: [2]int{120, 1200}, Shards: [2]int{8, 16}, Race: true, Env: []string{"GORACE=halt_on_error=1"}},
@@ -112,6 +112,7 @@ func init() {
 		Rule: "rule x context table: 51 statement-level rules (operand/argument/assignment/condition/branch/iterator mismatches, arity, unknown identifier/type/member, break/continue outside loops, implicit any, ...) each instantiated as a well-typed snippet and its single-fault ill-typed twin inside 15 syntactic contexts (function body, nested block, if/else, loops, lambda body, lambda in loop, match arms, try/catch, after a closure literal, value block) plus 41 whole-program rules (return types, duplicates, non-constant global, main shape, singletons, triggers, impl blocks vs template, imports): the good twin must get no error-level diagnostic, the bad twin at least one; random accept direction: generated well-typed programs must be accepted and the analyzer's recorded type of every top-level let equals the generator's type; random reject direction: single-fault mutants of generated programs (every fault site of the base in the thorough tier: operand, argument, arity, condition, iterator, index, list element, branch, annotated let) must be rejected; non-trivial = every ill-typed twin (differs from an accepted base at exactly one site) and generated programs with >= 3 type kinds; distinct by (rule, context) / program text",
 		Jobs: []Job{
 			{Name: "rules", Run: "^TestTableRules$", Shards: [2]int{4, 8}},
+			{Name: "members", Run: "^TestTableMemberNames$", Shards: [2]int{2, 4}},
 			{Name: "accept", Run: "^TestAcceptGenerated$", Checks: [2]int{3000, 20000}, Shards: [2]int{6, 16}},
 			{Name: "mutants", Run: "^TestRejectMutants$", Checks: [2]int{1000, 3000}, Shards: [2]int{6, 16}},
 		}})
